@@ -27,7 +27,7 @@ func vrtCmdHeader(ls []string, m wt.AggregationMethod, xff float32) *wt.Header {
 
 func vrtCmdLayouts() []string {
 	if vrt.Tier() == 1 {
-		return []string{"1s:2s", "1s:2s,2s:4s", "1s:3s,3s:6s", "5s:10s,10s:30s"}
+		return []string{"1s:2s", "1s:2s,2s:4s", "1s:3s,3s:6s"}
 	}
 	return []string{"1s:2s", "1s:2s,2s:4s"}
 }
@@ -81,7 +81,7 @@ func vrtCmdInvImage(h *wt.Header, tag string, now wt.Timestamp) ([]byte, *vrtSlo
 		// quick tier: every archive has been written at least once; the thorough tier also covers
 		// never-written archives (and the absent-destination path creates a never-written file)
 		written := true
-		if vrt.Tier() == 1 {
+		if vrt.Tier() == 1 && len(h.ArchiveInfoList()) == 1 {
 			written = vrt.Choose(vrt.N(tag+"written", ai), 2) == 1
 		}
 		var b int64
